@@ -75,18 +75,38 @@ func builtinStringConcat(call FunctionCall) Value {
 	return stringValue(value.String())
 }
 
-func lastIndexRune(s, substr string) int {
-	if i := strings.LastIndex(s, substr); i >= 0 {
-		return utf16Length(s[:i])
+// lastIndexUnits returns the largest k <= from at which sub occurs in s, or -1.
+// Positions are UTF-16 code units, as ES5 15.5.4.8 counts them.
+func lastIndexUnits(s, sub []uint16, from int) int {
+	if from > len(s)-len(sub) {
+		from = len(s) - len(sub)
+	}
+	for k := from; k >= 0; k-- {
+		if equalUnits(s[k:k+len(sub)], sub) {
+			return k
+		}
 	}
 	return -1
 }
 
-func indexRune(s, substr string) int {
-	if i := strings.Index(s, substr); i >= 0 {
-		return utf16Length(s[:i])
+// indexUnits returns the smallest k >= from at which sub occurs in s, or -1.
+// Positions are UTF-16 code units, as ES5 15.5.4.7 counts them.
+func indexUnits(s, sub []uint16, from int) int {
+	for k := from; k+len(sub) <= len(s); k++ {
+		if equalUnits(s[k:k+len(sub)], sub) {
+			return k
+		}
 	}
 	return -1
+}
+
+func equalUnits(a, b []uint16) bool {
+	for i := range a {
+		if a[i] != b[i] {
+			return false
+		}
+	}
+	return true
 }
 
 func utf16Length(s string) int {
@@ -95,31 +115,22 @@ func utf16Length(s string) int {
 
 func builtinStringIndexOf(call FunctionCall) Value {
 	checkObjectCoercible(call.runtime, call.This)
-	value := call.This.string()
-	target := call.Argument(0).string()
-	if 2 > len(call.ArgumentList) {
-		return intValue(indexRune(value, target))
+	value := utf16.Encode([]rune(call.This.string()))
+	target := utf16.Encode([]rune(call.Argument(0).string()))
+	// ES5 15.5.4.7 steps 4-6: start = min(max(ToInteger(position), 0), length).
+	start := 0
+	if pos := toIntegerFloat(call.Argument(1)); pos >= float64(len(value)) {
+		start = len(value)
+	} else if pos > 0 {
+		start = int(pos)
 	}
-	start := toIntegerFloat(call.Argument(1))
-	if 0 > start {
-		start = 0
-	} else if start >= float64(len(value)) {
-		if target == "" {
-			return intValue(len(value))
-		}
-		return intValue(-1)
-	}
-	index := indexRune(value[int(start):], target)
-	if index >= 0 {
-		index += int(start)
-	}
-	return intValue(index)
+	return intValue(indexUnits(value, target, start))
 }
 
 func builtinStringLastIndexOf(call FunctionCall) Value {
 	checkObjectCoercible(call.runtime, call.This)
-	value := call.This.string()
-	target := call.Argument(0).string()
+	value := utf16.Encode([]rune(call.This.string()))
+	target := utf16.Encode([]rune(call.Argument(0).string()))
 	// ES5 15.5.4.8 steps 4-7: numPos = ToNumber(position); NaN (which covers undefined)
 	// means +Infinity; start = min(max(ToInteger(numPos), 0), length).
 	length := len(value)
@@ -132,11 +143,7 @@ func builtinStringLastIndexOf(call FunctionCall) Value {
 			start = int(pos)
 		}
 	}
-	end := length
-	if start < length-len(target) {
-		end = start + len(target)
-	}
-	return intValue(lastIndexRune(value[:end], target))
+	return intValue(lastIndexUnits(value, target, start))
 }
 
 func builtinStringMatch(call FunctionCall) Value {
